@@ -41,6 +41,10 @@ def units(tier, seed):
     for n in range(1, 5 if tier == "quick" else 6):
         for minimize in (False, True):
             us.append({"kind": "topk", "n": n, "minimize": minimize})
+    for n in (2, 3):
+        us.append({"kind": "topk-multi", "n": n})
+    for e, nv in ((1, 0), (2, 1), (1, 2), (3, 0)):
+        us.append({"kind": "simplegp", "elitism": e, "novelty": nv, "size": 6})
     for weights in ([1, 1, 2], [1, 0, 3], [5, 5, 90], [1, 3, 0], [2, 1, 1]):
         for size in (3, 4, 5) + ((12, 15) if weights == [5, 5, 90] else ()):
             for minimize in (False, True):
@@ -202,8 +206,110 @@ def run_gp(unit) -> UnitResult:
     return r
 
 
+def run_topk_multi(unit) -> UnitResult:
+    """Elitism on a multi-objective problem: ranking by the documented default aggregate (maximised
+    components minus minimised ones), computed here from the raw components."""
+    from geneticengine.problems import MultiObjectiveProblem
+
+    r = UnitResult()
+    n = unit["n"]
+    rep = StubRepresentation(2)
+    vecs = list(itertools.product([0, 1, 2], repeat=2))
+    for mins in ([False, True], [True, False], [False, False], True):
+        for fits in itertools.product(vecs, repeat=n):
+            for k in range(1, n + 1):
+                table = {i: list(map(float, f)) for i, f in enumerate(fits)}
+                problem = MultiObjectiveProblem(mins, lambda p, table=table: table[p.v])
+                inds = []
+                for i in range(n):
+                    ind = Individual(rep._new(i), rep)
+                    ind.genotype.v = i
+                    inds.append(ind)
+                r.executions += 1
+                mlist = mins if isinstance(mins, list) else [mins, mins]
+                agg = lambda v: sum(-x if m else x for x, m in zip(v, mlist))  # noqa
+                w = {"unit": unit, "fitness": [list(f) for f in fits], "minimize": mins, "k": k}
+                try:
+                    out = list(ElitismStep().apply(problem, SequentialEvaluator(), rep, ExhaustiveSource(()), list(inds), k, 1))
+                except Exception as e:  # noqa
+                    r.add_violation(Violation(PROP, "ElitismStep.apply", "raised", {"exc": type(e).__name__, "form": "list"}, w, exc_brief(e)))
+                    continue
+                r.nontrivial += 1
+                if len(out) != k:
+                    r.add_violation(Violation(PROP, "ElitismStep.apply", "wrong-count", {"form": "list"}, w, f"multi-objective elitism k={k}: returned {len(out)}"))
+                    continue
+                kept = [agg(fits[o.genotype.v]) for o in out]
+                rest = [agg(fits[i.genotype.v]) for i in inds if all(i is not o for o in out)]
+                if rest and max(rest) > min(kept) + 1e-12:
+                    r.add_violation(Violation(PROP, "ElitismStep.apply", "excluded-better-than-included", {"minimize": "multi"}, w,
+                                              f"multi-objective elitism k={k} minimise {mins} on components {fits}: kept aggregates {kept}, excluded {rest}"))
+    r.states = len(vecs) ** n
+    r.samples.append({"multi_objective_population": n})
+    return r
+
+
+def run_simplegp(unit) -> UnitResult:
+    """SimpleGP(elitism=e, novelty=n): the elitism step really gets e slots in every generation and the best
+    fitness is monotone."""
+    import geml.simplegp as SG
+    from mc import grammars as G
+
+    r = UnitResult()
+    e, nv, size = unit["elitism"], unit["novelty"], unit["size"]
+    b = G.build(G.family_shapes()[0])
+    targets = []
+    real = SG.ElitismStep
+
+    class ObservedElitism(real):  # type: ignore
+        def iterate(self, problem, evaluator, representation, random, population, target_size, generation):
+            targets.append((generation, target_size))
+            return super().iterate(problem, evaluator, representation, random, population, target_size, generation)
+
+    try:
+        g = b.extract()
+        for minimize in (False, True):
+            for seed in (0, 1, 2):
+                targets.clear()
+                SG.ElitismStep = ObservedElitism
+                try:
+                    rec = Rec()
+                    sgp = SG.SimpleGP(lambda p: float(len(repr(p)) % 7), g, minimize=minimize, seed=seed, population_size=size, elitism=e,
+                                      novelty=nv, max_evaluations=size * 5, max_depth=4, mutation_probability=0.9, crossover_probability=0.5)
+                finally:
+                    SG.ElitismStep = real
+                sgp.gp.tracker.recorders.append(rec)
+                sgp.search()
+                r.executions += 1
+                r.count("gp_runs")
+                w = {"unit": unit, "seed": seed, "minimize": minimize}
+                gens = sorted(k for k in rec.gens if k is not None)
+                for gnum in [x for x in gens if x >= 1]:
+                    got = [t for gg, t in targets if gg == gnum]
+                    if sum(got) != e:
+                        r.add_violation(Violation(PROP, "SimpleGP", "elite-slots-not-as-requested", {}, w,
+                                                  f"SimpleGP(elitism={e}, novelty={nv}, population_size={size}): generation {gnum} gave elitism {got} slot(s)"))
+                        break
+                prev = None
+                for gnum in gens:
+                    best = (min if minimize else max)(rec.gens[gnum])
+                    if prev is not None and e >= 1:
+                        r.count("generations_with_an_elite_slot")
+                        r.nontrivial += 1
+                        if better(prev, best, minimize):
+                            r.add_violation(Violation(PROP, "SimpleGP", "best-fitness-got-worse", {"minimize": minimize}, w,
+                                                      f"SimpleGP(elitism={e}, novelty={nv}): best {prev} in generation {gnum - 1} became {best}"))
+                            break
+                    prev = best
+        r.states = 6
+        r.samples.append({"simplegp": {"elitism": e, "novelty": nv, "population_size": size}})
+    finally:
+        SG.ElitismStep = real
+        b.cleanup()
+    return r
+
+
 def run_unit(unit) -> UnitResult:
-    return run_topk(unit) if unit["kind"] == "topk" else run_gp(unit)
+    return {"topk": run_topk, "gp": run_gp, "topk-multi": run_topk_multi, "simplegp": run_simplegp}[unit["kind"]](unit)
 
 
 def finalize(cr):
